@@ -1202,8 +1202,8 @@ def new_hist():
 def integer_cost_sessions(lab, make=None):
     """The objective returns Python ints: np.round takes numpy's INTEGER path (identity for decimals >= 0, result numpy.int64) and
     sign * value is the exact integer product (no negative zero) - not rint(y * 10^p) / 10^p, which loses the last digits as soon
-    as |y| * 10^p >= 2^53 (found by a seed sweep: cost 250000000001000, precision 7).  Costs up to 3e14 with stored precision
-    0 / 3 / 7 / 10 / 15, integer 0 under minimise / maximise / no criterion, negative integers."""
+    as |y| * 10^p >= 2^53 (found by a seed sweep: cost 250000000001000, precision 7).  Costs up to 6.3e14 with stored precision
+    0 / 3 / 7 / 10 / 12 / 15, integer 0 under minimise / maximise / no criterion, negative integers."""
     make = make or (lambda cfg: Session(lab, cfg))
     base = dict(dim=3, ncons=0, mode="int", coef=[[0.0, 1.0, -0.7, 1.0 / 7.0]] * 5, thr=[1.0, 0.5], extra=0, pstyle=0, schedule=[], ret="int")
     out = []
@@ -1378,7 +1378,7 @@ def run(ctx):
                 "Algorithm.evaluate on batches with repeats and aliasing, repeated evaluate of the same batch, Evaluator.evaluate_scalar, "
                 "SweepAlgorithm over artap's generators, and sweeps of a CustomGenerator whose sizes straddle the multiples of the inherited "
                 "option max_population_size: set to 1, 2, 3, 5, 8 or left at 100 with 99..102 and 199..202 designs), 1..3 objectives over minimise/maximise/undeclared, 0..2 constraints, cost modes %r, "
-                "vectors from a 15-value grid; a history is non-trivial when the objective was invoked more than once; distinct = distinct "
+                "vectors from a 17-value grid; a history is non-trivial when the objective was invoked more than once; distinct = distinct "
                 "(criteria, mode, constraints, operation kinds, outcome sequence, design sequence of the call log)") % (sorted(set(MODES)),)
     ctx.extra.update({"distribution": hist})
 
@@ -1439,9 +1439,9 @@ LEVEL_TEXT = ("Machine-checked Coq theorems over a state-machine model of Job.ev
               "and every minimise/maximise assignment: exactly one successful objective call per not-yet-evaluated design and none for an "
               "evaluated one, stored costs = objective value of the stored vector, signed costs = sign * round(cost, stored precision) followed by the marker, "
               "marker precedence composed with C01, sweep order, scalar bridge. The model is tied to the code on every run by evaluating it "
-              "in Coq on generated histories and comparing call log, every design's (vector, costs, costs_signed, state), problem.individuals, "
+              "in Coq on generated histories and comparing call log, every design's (vector, costs, costs_signed, state, feasible, stored precision), problem.individuals, "
               "problem.failed and the sync log bit for bit.")
-LEVEL_NOTE = ("Trusted: Coq kernel + vm_compute; the hand-written model and the Python harness; objective, constraints and gen_vector are "
+LEVEL_NOTE = ("Trusted: Coq kernel + vm_compute; the hand-written model and the Python harness; the translator (tools/py2coq.py, tools/py2coq_eff.py) for the second tie; objective, constraints and gen_vector are "
               "oracles; np.round is modelled bit-exactly in the binary64 driver while the theorems treat roundp abstractly (rational instance "
               "proved within half a unit of the last kept decimal). SciPy/NLopt are not modelled (thorough tier: direct oracle on one real run each). Serial evaluation only "
               "(parallel = C07). Correspondence is sampled, the theorems are unbounded.")
